@@ -11,3 +11,5 @@ MODULES += ["util", "errors"]
 MODULES += ["output"]
 MODULES += ["validation"]
 # MODULES += ["json_"]   (json_default contract: work in progress)
+MODULES += ["testing"]
+MODULES += ["lemmas"]
